@@ -63,6 +63,8 @@ func (t *recTarget) Fetch(ctx context.Context, target ocispec.Descriptor) (rc io
 	return t.GraphTarget.Fetch(ctx, target)
 }
 
+const manifestCap = 4 * 1024 * 1024 // the cap on signature manifests: a manifest of exactly this size does not exceed it
+
 const artifactTypeNotation = "application/vnd.cncf.notary.signature"
 const mediaTypeLegacyArtifact = "application/vnd.oci.artifact.manifest.v1+json"
 
@@ -168,6 +170,15 @@ func runSigRepo() int {
 				case "sig":
 					rec.mt = mediaTypeOf(it.MT)
 					_, rec.manifest, perr = repo.PushSignature(ctx, rec.mt, blob, subj, ann)
+				case "sigAtCap":
+					// annotations padded so that the signature manifest is exactly 4 MiB (measured with a trial push elsewhere)
+					rec.mt = mtJWS
+					ann["io.example/pad"] = ""
+					_, trial, err := registry.NewRepository(memory.New()).PushSignature(ctx, rec.mt, blob, subj, ann)
+					must(err)
+					ann["io.example/pad"] = strings.Repeat("x", int(manifestCap-trial.Size))
+					_, rec.manifest, perr = repo.PushSignature(ctx, rec.mt, blob, subj, ann)
+
 				default:
 				}
 			})
@@ -177,10 +188,12 @@ func runSigRepo() int {
 			}
 			if perr != nil {
 				obs.Note = "push failed: " + perr.Error()
+			} else if it.Kind == "sigAtCap" && rec.manifest.Size != manifestCap {
+				panic(fmt.Sprintf("harness: padded manifest has %d bytes", rec.manifest.Size)) // not a verdict about the code
 			}
 			alt := subj
 			switch it.Kind {
-			case "sig":
+			case "sig", "sigAtCap":
 			case "legacySig", "legacyForeign":
 				at := artifactTypeNotation
 				if it.Kind == "legacyForeign" {
